@@ -641,7 +641,7 @@ func (x *exec) judgeSource(id, kind, src string, res result) {
 		return
 	}
 	c.NonTrivial(vp.Hash("source", src))
-	if c.WantSample() && res.kind == kError && len(src) < 400 {
-		c.Sample(map[string]interface{}{"stage": "source", "mutation": kind, "input": src, "outcome": res.kind, "error": res.errMsg})
+	if x.wantSample() && res.kind == kError && len(src) < 400 {
+		x.sample(map[string]interface{}{"stage": "source", "mutation": kind, "input": src, "outcome": res.kind, "error": res.errMsg})
 	}
 }
